@@ -1,6 +1,7 @@
 import Driver.CdrFileIO
 import ChfVerif.Model.Ber
 import ChfVerif.Spec.X690
+import ChfVerif.Spec.C05Domain
 /-
   line protocol of the `ber` stream.  Notation (shared with harness/cmd/ber.go):
     types:  b | i64 | i32 | e | o | B | n | O | s12 s22 s25 | P<t> | L<t> | W<t> | C[f;f] | S[f;f] | U
@@ -161,6 +162,49 @@ def sRes (r : Res String) : String :=
   | .err => "err"
   | .panic => "panic"
 
+/-- one `M` / `R` / `U` operation -/
+def berOne (kind ty params arg : String) : String :=
+  match pTy (ty.length + 1) ty.toList, pParams params.toList with
+  | some (t, []), some (p, []) =>
+    if kind = "M" ∨ kind = "R" then
+      (match pVal (arg.length + 1) arg.toList with
+       | some (v, []) =>
+         (match marshal t p v with
+          | .ok b =>
+            if kind = "M" then "ok " ++ hexRaw b
+            else
+              (match unmarshal t p b with
+               | .ok w => "ok " ++ hexRaw b ++ " ok " ++ sVal w
+               | .err => "ok " ++ hexRaw b ++ " err"
+               | .panic => "ok " ++ hexRaw b ++ " panic")
+          | .err => "err"
+          | .panic => "panic")
+       | _ => "bad-val")
+    else if kind = "U" then
+      (match hexCs (if arg = "-" then [] else arg.toList) with
+       | some b =>
+         (match unmarshal t p b with
+          | .ok w => "ok " ++ sVal w
+          | .err => "err"
+          | .panic => "panic")
+       | none => "bad-hex")
+    else "bad-op"
+  | _, _ => "bad-type"
+
+/-- the items `<ty> <params> <arg>` of a history (`H`) or of a concurrent decoding (`V`) -/
+def berItems : List String → Option (List (String × String × String))
+  | [] => some []
+  | a :: b :: c :: r => (berItems r).map ((a, b, c) :: ·)
+  | _ => none
+
+/-- The codec model is a function of (type, parameters, argument): it has no state.  A history of marshal calls
+    and a set of concurrent unmarshal calls therefore answer item by item what the single operations answer —
+    whatever the order, the repetition or the interleaving (Props.C05.C05_history, Props.C16.C16_schedule). -/
+def berEach (kind : String) (items : List String) : String :=
+  match berItems items with
+  | some its => " | ".intercalate (its.map (fun (ty, ps, a) => berOne kind ty ps a))
+  | none => "bad-op"
+
 def berOp : Tok → String
   | ["wf", hx] =>
     (match hexCs hx.toList with
@@ -174,34 +218,16 @@ def berOp : Tok → String
         | some b => "ok " ++ hexRaw b
         | none => "none")
      | _, _, _ => "bad-op")
+  | ["dom", ty, params] =>
+    -- is (type, top-level parameters) in the domain of the round-trip law (Props.C05.C05_domain)?
+    (match pTy (ty.length + 1) ty.toList, pParams params.toList with
+     | some (t, []), some (p, []) => if inDomain t p then "in" else "out"
+     | _, _ => "bad-type")
+  | "H" :: _mode :: items => berEach "R" items
+  | "V" :: _goroutines :: _stride :: items => berEach "U" items
   | kind :: ty :: params :: rest =>
     let arg := match rest with | a :: _ => a | [] => ""
-    (match pTy (ty.length + 1) ty.toList, pParams params.toList with
-     | some (t, []), some (p, []) =>
-       if kind = "M" ∨ kind = "R" then
-         (match pVal (arg.length + 1) arg.toList with
-          | some (v, []) =>
-            (match marshal t p v with
-             | .ok b =>
-               if kind = "M" then "ok " ++ hexRaw b
-               else
-                 (match unmarshal t p b with
-                  | .ok w => "ok " ++ hexRaw b ++ " ok " ++ sVal w
-                  | .err => "ok " ++ hexRaw b ++ " err"
-                  | .panic => "ok " ++ hexRaw b ++ " panic")
-             | .err => "err"
-             | .panic => "panic")
-          | _ => "bad-val")
-       else if kind = "U" then
-         (match hexCs arg.toList with
-          | some b =>
-            (match unmarshal t p b with
-             | .ok w => "ok " ++ sVal w
-             | .err => "err"
-             | .panic => "panic")
-          | none => "bad-hex")
-       else "bad-op"
-     | _, _ => "bad-type")
+    berOne kind ty params arg
   | _ => "bad-op"
 
 end Chf.Driver
